@@ -24,13 +24,15 @@ RULE = ("cases = (class, kernel function, hyper-parameters incl. boundary values
 
 GEN_THEOREMS = ["fuzzy_choice", "fuzzy_match", "fuzzy_update", "fuzzy_new", "art1_choice", "art1_match", "art1_update",
                 "art1_new", "art2_choice", "art2_match", "art2_update", "art2_new", "sph_distance", "sph_choice",
-                "sph_match", "sph_update", "sph_new"]
+                "sph_match", "sph_update", "sph_new", "ell_distance", "ell_choice", "ell_match", "ell_update", "ell_new",
+                "bayes_match_bin", "base_match_bin", "operator_strict"]
 
 
 def prepare(ctx):
     """Translator tie (see gen_tie.py): the kernels of FuzzyART / ART1 / ART2A / HypersphereART"""
     from .gen_tie import gen_prepare
-    gen_prepare(ctx, GEN_THEOREMS, "category_choice / match_criterion / update / new_weight of FuzzyART, ART1, ART2A, HypersphereART")
+    gen_prepare(ctx, GEN_THEOREMS, "category_choice / match_criterion / update / new_weight of FuzzyART, ART1, ART2A, HypersphereART, EllipsoidART; "
+                "match_criterion_bin of BaseART / BayesianART and the comparison operator per mode")
 
 
 def close(a, q, tol=1e-12):
@@ -299,6 +301,25 @@ def other_modules(ctx):
                     and wu.shape == wr.shape and np.allclose(wu, wr, rtol=tol, atol=tol, equal_nan=True)):
                 ctx.issue("violation", f"{cls}.kernel:differs-from-published-rule",
                           f"T {T} vs {Tr}; M {M} vs {Mr}; update {wu.tolist()} vs {wr.tolist()}", rep)
+            # the binary test thresholds M against rho with the operator of the selected mode, also when
+            # M == rho exactly (BayesianART compares the other way round: rho >= M)
+            Mf = float(M)
+            for rho_t in (p["rho"], Mf, float(np.nextafter(Mf, np.inf)), float(np.nextafter(Mf, -np.inf))):
+                pt = dict(p, rho=rho_t)
+                for mode in MODES:
+                    op = m._match_tracking_operator(mode)
+                    with quiet():
+                        mb, _ = m.match_criterion_bin(x, w, params=pt, cache=dict(cache2) if cache2 else cache2, op=op)
+                    strict = mode not in ("MT+", "MT-", "MT1")
+                    if cls == "BayesianART":
+                        want = (rho_t > Mf) if strict else (rho_t >= Mf)
+                    else:
+                        want = (Mf > rho_t) if strict else (Mf >= rho_t)
+                    if bool(mb) != bool(want):
+                        ctx.issue("violation", f"{cls}.match_criterion_bin:{mode}",
+                                  f"M={Mf!r} rho={rho_t!r} mode {mode}: got {bool(mb)}, the rule gives {bool(want)}", dict(rep, rho=rho_t))
+                if rho_t == Mf:
+                    cov.hit(f"match-equals-threshold:{cls}")
             cov.case((cls, spec, x.tolist(), w.tolist()), True)
             cov.hit(f"published-rule:{cls}")
 
